@@ -234,8 +234,8 @@ def items_oracle(prop, ops, sig):
                 params = specs[cur]["params"]
                 if p >= len(params) or params[p][0] != "F":
                     continue
-                if any("?" in x for x in m.group(2).split(";")) and "?#" not in m.group(2):
-                    pass
+                if re.search(r"\?\d+v\d+", m.group(2)):
+                    continue        # an entity without an ordinal yet (a world-level spawn in progress) is not in the `st` line
                 try:
                     exp = oracle.expected_items(params[p][1], store)
                 except Exception:
